@@ -29,7 +29,7 @@ func init() {
 		Level: "fault_enumeration",
 		Modes: []Mode{{Name: "dead", Weight: 6}, {Name: "live", Weight: 4}},
 		Gen:   genC14, Run: runC14, Fixed: fixedC14,
-		QuickRuns: 5000, ThoroughRuns: 60000,
+		QuickRuns: 5000, ThoroughRuns: 360000,
 		Rule: "plan = (transport, pingInterval, pingTimeout in 1..3 s, network latency/jitter/chunking, black-hole direction and instant | traffic script, stall parameters) from VERIF_SEED, " +
 			"plus a fixed sweep of black-hole instants across one heartbeat period per transport and direction; non-trivial = the fault fired on an established session (dead) or >= 20 heartbeat rounds completed (live); " +
 			"distinct = distinct history digest among non-trivial runs",
